@@ -313,10 +313,10 @@ def run_property(pid: str, tier: str, seed: int, repo: str, only_clause: str | N
     replay_dir = os.path.join(VERIF, "replays", pid)
     groups: dict = {}
     for cname, idx, case, res in violations:
-        gkey = (cname, res.get("site") or "", str(res.get("detail"))[:60])
+        gkey = (cname, res.get("site") or "")
         groups.setdefault(gkey, []).append((idx, case, res))
     written = 0
-    for (cname, site, _), members in groups.items():
+    for (cname, site), members in groups.items():
         for idx, case, res in members[:2]:
             if written >= 40:
                 break
